@@ -26,6 +26,7 @@ def run(ctx, repo, tier):
     voro.pair_functions(ctx, repo, "C03", 3)
     voro.dispatch_model(ctx, repo, "C03")
     voro.getter_forwarding(ctx, repo, "C03")
+    voro.value_snapping(ctx, repo, "C03")
     voro.volumes_exact_3d(ctx, repo, "C03")
     voro.vertex_reindexing(ctx, repo, "C03")
     ctx.require_instances("MIRROR", 9, "emission obligations")
